@@ -15,3 +15,26 @@ package stun
 func verifLemmaDecodeOfWire(m *Message) error {
 	return m.Decode()
 }
+
+// verifLemmaEncodeThenDecode: "encode-then-decode is the identity on message content": whatever the buffer held
+// before, after Encode the bytes decode to the type, transaction ID and attributes of the struct.
+func verifLemmaEncodeThenDecode(m *Message) error {
+	m.Encode()
+
+	return verifLemmaDecodeOfWire(m)
+}
+
+// verifLemmaUsernameRoundTrip (C06, text attributes): a USERNAME within the limit, added to a well-formed message
+// that has none yet, is what the getter returns from the re-decoded message.
+func verifLemmaUsernameRoundTrip(m *Message, u Username) (Username, error) {
+	if err := u.AddTo(m); err != nil {
+		return nil, err
+	}
+	if err := verifLemmaDecodeOfWire(m); err != nil {
+		return nil, err
+	}
+	var got Username
+	err := got.GetFrom(m)
+
+	return got, err
+}
